@@ -8,7 +8,7 @@
    in C17_filter_invisible) is NOT unit-covariant: see the known finding K-C09-assembly-cutoff. *)
 From Coq Require Import ZArith QArith Qabs Reals List Bool Arith Lia.
 From Inkfem Require Import Num.NumOps Gen.GenStiffness Gen.GenLoads Gen.GenRecover Spec.Stiffness
-  Model.Types Proofs.StiffnessQ Proofs.UnitsProofs Gen.GenSolver Gen.GenAccept Proofs.SolverProofs Proofs.AcceptBound Model.Slice Model.Loads Model.Dof Model.Assemble Spec.Resultant Spec.Superposition Proofs.AssembleProofs Proofs.SystemProofs Proofs.UnitsBar Proofs.UnitsStructure Gen.GenPcg Proofs.PcgProofs Proofs.PcgAccept.
+  Model.Types Proofs.StiffnessQ Proofs.UnitsProofs Gen.GenSolver Gen.GenAccept Proofs.SolverProofs Proofs.AcceptBound Model.Slice Model.Loads Model.Dof Model.Assemble Spec.Resultant Spec.Superposition Proofs.AssembleProofs Proofs.SystemProofs Proofs.UnitsBar Proofs.UnitsStructure Gen.GenPcg Proofs.PcgProofs Proofs.PcgAccept Proofs.PcgCovariance.
 Import ListNotations.
 
 Theorem C09_stiffness_units_R : forall (L c s t1 t2 E A I lam phi x1 y1 r1 x2 y2 r2 : R),
@@ -80,6 +80,35 @@ Theorem C09_what_the_solver_finds_good_enough_passes_the_acceptance_test :
   forall i, (i < n)%nat -> (Qabs (b i - pcg_mv n A (pcg_answer n A b k) i) <= accept_bound (O:=QOps) e)%Q.
 Proof. exact good_enough_for_the_solver_is_good_enough. Qed.
 Print Assumptions C09_what_the_solver_finds_good_enough_passes_the_acceptance_test.
+
+(* the solver itself is unit-agnostic pass by pass (exact arithmetic, model of its loop in Gen/GenPcg.v): writing a structure in
+   other units rescales its system symmetrically - K' i j = c s_i K i j s_j, f' i = d s_i f i with s_i = 1 / lam for a translation
+   equation and 1 for a rotation equation, c = d = phi lam - and then the x, r and p of EVERY pass are the old ones rescaled:
+   x' = (d / c) x / s (translations x lam, rotations unchanged), r' = d s r (forces x phi, moments x phi lam).  The inverse of the
+   diagonal as preconditioner is what makes this exact.  Units enter only where the loop decides to stop, through the absolute
+   test of r' = d s r against one number - the listed finding K-C09-absolute-residual-threshold, here with its cause *)
+Theorem C09_the_iterates_of_the_solver_convert_with_the_units :
+  forall (n : nat) (A : nat -> nat -> Q) (b s : nat -> Q) (c d : Q),
+  (forall i, ~ s i == 0)%Q -> (forall i, ~ A i i == 0)%Q -> (~ c == 0)%Q -> (~ d == 0)%Q ->
+  forall (A' : nat -> nat -> Q) (b' : nat -> Q),
+  (forall i j, A' i j == c * s i * A i j * s j)%Q -> (forall i, b' i == d * s i * b i)%Q ->
+  forall k i,
+  (pcg_answer n A' b' k i == (d / c) * pcg_answer n A b k i / s i)%Q /\
+  (pcg_r (pcg_iter n A' k (pcg_init n A' b')) i == d * s i * pcg_r (pcg_iter n A k (pcg_init n A b)) i)%Q.
+Proof. exact iterates_are_covariant. Qed.
+Print Assumptions C09_the_iterates_of_the_solver_convert_with_the_units.
+
+(* a system with a translation and a rotation equation, in centimetres and newtons and in metres and kilonewtons (lam = 1/100,
+   phi = 1/1000): after one pass - not yet converged - the answers already convert *)
+Example C09_iterates_convert_example :
+  let A (i j : nat) : Q := match i, j with O, O => 4 | O, 1%nat => 30 | 1%nat, O => 30 | 1%nat, 1%nat => 900 | _, _ => 1 end in
+  let b (i : nat) : Q := match i with O => 7 | 1%nat => -200 | _ => 0 end in
+  let lam : Q := 1 # 100 in let phi : Q := 1 # 1000 in
+  let s (i : nat) : Q := match i with O => / lam | _ => 1 end in
+  let A' (i j : nat) : Q := phi * lam * s i * A i j * s j in let b' (i : nat) : Q := phi * lam * s i * b i in
+  (pcg_answer 2 A' b' 1 0 == lam * pcg_answer 2 A b 1 0)%Q /\ (pcg_answer 2 A' b' 1 1 == pcg_answer 2 A b 1 1)%Q /\
+  ~ (pcg_answer 2 A b 1 0 == pcg_answer 2 A b 2 0)%Q.
+Proof. cbv zeta. repeat split; try (vm_compute; reflexivity). vm_compute. discriminate. Qed.
 
 (* a whole bar of the slicing model (Model/Slice.v + Model/Loads.v over the regenerated lump_gen / own_weight_gen;
    tied to preprocess/*.go by correspondence stage B), with or without its own weight: written in another unit
